@@ -255,13 +255,13 @@ class AddressAg(AddressBase):
             self._type = "host"
             self._wildcard = Wildcard(wildcard, platform=self._platform, max_ncwb=self.max_ncwb)
 
-        elif self._platform == "ios":
-            subnet = ipnet.with_netmask.replace("/", " ")
-            self._line__subnet(subnet)
-
         elif self._platform == "nxos":
             self._type = "prefix"
             self._wildcard = Wildcard(wildcard, platform=self._platform, max_ncwb=self.max_ncwb)
+
+        else:  # ios, asa
+            subnet = ipnet.with_netmask.replace("/", " ")
+            self._line__subnet(subnet)
 
     def _line__subnet(self, line: str) -> None:
         """Set attributes for subnet "A.B.C.D A.B.C.D"."""
